@@ -79,6 +79,26 @@ func ruleShrinklogCapture(c *Ctx) {
 		}
 	}
 	c.check(okDom, "test-dominates-live-append", testLoc.Node.Pos(), "the s.shrinking test dominates every append to aofbuf", "aofbuf can grow on a path that never tests s.shrinking: the command is missing from the shrink log")
+	// the converse: the live log receives the command whether or not a rewrite is running — until the final swap the
+	// old file is the only durable copy of what was acknowledged during the rewrite
+	indep := true
+	var depAt ast.Node
+	for _, g := range grows {
+		for _, f := range fg.DominatingFacts(g) {
+			ast.Inspect(f.E, func(n ast.Node) bool {
+				if se, ok := n.(*ast.SelectorExpr); ok && selField(info, se) == shrinking {
+					indep = false
+					depAt = g.Node
+				}
+				return true
+			})
+		}
+	}
+	pos := testLoc.Node.Pos()
+	if depAt != nil {
+		pos = depAt.Pos()
+	}
+	c.check(indep, "live-append-independent-of-shrinking", pos, "the append to the live log buffer does not depend on s.shrinking", "the command reaches the live log buffer only when no rewrite is running: a write acknowledged during AOFSHRINK exists only in the in-memory shrink log, and a crash (or a failed rewrite) before the final rename loses it")
 	// guards of the shrinklog append = guards of the test + {s.shrinking}
 	base := map[string]bool{}
 	for _, f := range fg.DominatingFacts(testLoc) {
